@@ -13,9 +13,11 @@ import (
 // ---------- contract AST ----------
 
 type Clause struct {
-	Label string
-	Expr  *Expr
-	Src   string
+	UsesCallres bool
+	Label   string
+	Expr    *Expr
+	Src     string
+	Defines bool // definitional postcondition: assumed at call sites, not checked on the body
 }
 
 type FuncContract struct {
@@ -41,6 +43,7 @@ type LoopSpec struct {
 }
 
 type SpecFunc struct {
+	Pkg    string // short name of the package whose contract file declares it ("" for /verif/specs)
 	Name   string
 	Params []SpecParam
 	Ret    string // type name
@@ -77,6 +80,7 @@ type Contracts struct {
 	Ghosts  map[string]*GhostDecl
 	Lemmas  []*Lemma
 	Errors  []string
+	curPkg  string
 }
 
 func NewContracts() *Contracts {
@@ -449,10 +453,14 @@ func (p *parser) primary() *Expr {
 // ---------- file parsing ----------
 
 var declKeywords = map[string]bool{"func": true, "extern": true, "interface": true, "loop": true, "spec": true, "ghost": true, "axiom": true, "lemma": true}
-var clauseKeywords = map[string]bool{"requires": true, "ensures": true, "modifies": true, "pure": true, "effectful": true, "trusted": true, "invariant": true, "noinline": true, "params": true}
+var clauseKeywords = map[string]bool{"requires": true, "ensures": true, "defines": true, "modifies": true, "pure": true, "effectful": true, "trusted": true, "invariant": true, "noinline": true, "params": true}
 
 // ParseContractText parses the //@ lines of one file.
 func (C *Contracts) ParseContractText(origin, text string) {
+	C.curPkg = ""
+	if i := strings.Index(origin, "/zz_verif_contracts.go"); i >= 0 {
+		C.curPkg = origin[:i]
+	}
 	// collect logical lines
 	type line struct {
 		text string
@@ -571,14 +579,14 @@ func (C *Contracts) ParseContractText(origin, text string) {
 				continue
 			}
 			C.Lemmas = append(C.Lemmas, &Lemma{Label: lab, Expr: e, Src: rest, Axiom: el.kw == "axiom"})
-		case "requires", "ensures", "invariant":
+		case "requires", "ensures", "invariant", "defines":
 			lab, rest := splitLabel(el.rest)
 			e, err := parseExpr(rest)
 			if err != nil {
 				errf(el.no, "%v in %q", err, rest)
 				continue
 			}
-			cl := Clause{Label: lab, Expr: e, Src: rest}
+			cl := Clause{Label: lab, Expr: e, Src: rest, UsesCallres: strings.Contains(rest, "callres(")}
 			switch {
 			case el.kw == "invariant" && curL != nil:
 				if cl.Label == "" {
@@ -590,7 +598,8 @@ func (C *Contracts) ParseContractText(origin, text string) {
 					cl.Label = fmt.Sprint(len(curF.Requires) + 1)
 				}
 				curF.Requires = append(curF.Requires, cl)
-			case el.kw == "ensures" && curF != nil:
+			case (el.kw == "ensures" || el.kw == "defines") && curF != nil:
+				cl.Defines = el.kw == "defines"
 				if cl.Label == "" {
 					cl.Label = fmt.Sprint(len(curF.Ensures) + 1)
 				}
@@ -700,7 +709,7 @@ func (C *Contracts) parseSpecFunc(rest string, no int, errf func(int, string, ..
 		errf(no, "bad spec func params")
 		return
 	}
-	sf := &SpecFunc{Name: name}
+	sf := &SpecFunc{Name: name, Pkg: C.curPkg}
 	for _, p := range splitTop(rest[open+1 : cl]) {
 		f := strings.Fields(p)
 		if len(f) != 2 {
